@@ -45,7 +45,7 @@ theorem put_ack_only_if (C : Codec) (H : Bytes → String) (d : Disk) (hcs : 0 <
     (hash : String) (size : Int) (s : Stream) (rnd : String)
     (hok : (put C H d kind hash size s rnd).2 = .ok) :
     0 ≤ size ∧ size ≤ d.cfg.maxBlobSize ∧ hash.length = 64 ∧
-    ((kind = .cas ∧ size = 0 ∧ hash = emptySha256) ∨
+    ((kind = .cas ∧ size = 0 ∧ hash = emptySha256 ∧ s.data = []) ∨
      (s.fault = false ∧ (s.data.length : Int) = size ∧ (kind = .cas → H s.data = hash))) := by
   unfold put at hok
   split at hok
@@ -57,7 +57,11 @@ theorem put_ack_only_if (C : Codec) (H : Bytes → String) (d : Disk) (hcs : 0 <
   rename_i h1 h2 h3
   have h64 : hash.length = 64 := by simpa using h3
   split at hok
-  · rename_i hsp; exact ⟨by omega, by omega, h64, Or.inl hsp⟩
+  · rename_i hsp
+    split at hok
+    · rename_i hem
+      exact ⟨by omega, by omega, h64, Or.inl ⟨hsp.1, hsp.2.1, hsp.2.2, by simpa using hem⟩⟩
+    · simp at hok
   refine ⟨by omega, by omega, h64, Or.inr ?_⟩
   generalize (if size > 0 then reserve d.lru size else (d.lru, none)) = r at hok
   obtain ⟨l1, rerr⟩ := r
@@ -85,7 +89,7 @@ theorem put_nack_unchanged (C : Codec) (H : Bytes → String) {d : Disk} (h : Di
   split
   · exact ⟨rfl, List.Perm.refl _⟩
   split
-  · exact ⟨rfl, List.Perm.refl _⟩
+  · split <;> exact ⟨rfl, List.Perm.refl _⟩
   rename_i c1 c2 c3 c4
   simp only [c1, c2, c3, c4, if_false] at hno
   have hr : Inv (if size > 0 then reserve d.lru size else (d.lru, none)).1 ∧
